@@ -286,6 +286,24 @@ theorem table_is_set (t : Table) (wf : WF t) (p : Prefix) (r : Roa) (s : Nat) (x
   ⟨mem_recs_add t p r x, mem_recs_delete t p r x wf, mem_recs_deleteAll t s x,
     wf_add t p r wf, wf_delete t p r wf, wf_deleteAll t s wf⟩
 
+/-- **Every reported figure is a recount of that set.**  On a well-formed table the listing
+    (ROATable.List / ListRpkiTable) has no duplicates; the `records` figure of ROATable.Info
+    (GetServers / ListRpki RecordsV4/V6) is the number of listed records of that family and
+    source; the `prefixes` figure (PrefixesV4/V6) is the length of a duplicate-free list holding
+    exactly the prefixes under which the source has a record — however the entries of several
+    sources interleave inside a bucket. -/
+theorem info_is_recount (t : Table) (wf : WF t) (fam src : Nat) :
+    (recs t).Nodup ∧
+    infoRecords t fam src = ((recs t).filter fun x => x.1.fam == fam && x.2.src == src).length ∧
+    infoPrefixes t fam src = (infoPrefixList t fam src).length ∧
+    (infoPrefixList t fam src).Nodup ∧
+    ∀ p, p ∈ infoPrefixList t fam src ↔ p.fam = fam ∧ ∃ r, (p, r) ∈ recs t ∧ r.src = src :=
+  ⟨recs_nodup t wf, rfl, rfl, infoPrefixList_nodup t fam src wf, mem_infoPrefixList t fam src⟩
+
+/-- two caches with interleaving entries under one prefix: one prefix each -/
+example : let t := add (add (add [] ⟨4, 16, 2560⟩ ⟨16, 100, 0⟩) ⟨4, 16, 2560⟩ ⟨24, 100, 0⟩) ⟨4, 16, 2560⟩ ⟨20, 100, 1⟩
+    infoPrefixes t 4 0 = 1 ∧ infoPrefixes t 4 1 = 1 ∧ infoRecords t 4 0 = 2 := by decide
+
 example : WF (add (add [] ⟨4, 8, 10⟩ ⟨24, 100, 0⟩) ⟨4, 8, 10⟩ ⟨24, 100, 1⟩) :=
   wf_add _ _ _ (wf_add _ _ _ wf_nil)
 
